@@ -13,8 +13,9 @@ cargo test --offline --test demo_$ID 2>&1 | grep -E "^test result|panicked|error
 echo "== with change: existing suite"
 cargo test --offline --test fasta --test fastq 2>&1 | grep -E "^test result" 
 cargo test --offline --doc 2>&1 | grep -E "^test result"
-git stash -q
+# (no `git stash`: the stash is shared between all worktrees of a repository)
+git apply -R $OUT/patch.diff
 echo "== without change: demo must pass"
 cargo test --offline --test demo_$ID 2>&1 | grep -E "^test result|panicked" | head -3
-git stash pop -q
+git apply $OUT/patch.diff
 wc -l $OUT/patch.diff
